@@ -33,6 +33,10 @@ type PropConfig struct {
 	MinObls     int        `json:"min_obligations"` // vacuity guard: fewer generated obligations = broken check
 	TimeoutS    int        `json:"timeout_s"`
 	Bounded     []string   `json:"bounded_cmds"` // bounded stand-ins (never counted as discharged)
+	// functions with returns that are known to be unreachable on the unchanged tree (dead code after a callee
+	// that is proved not to fail): function -> number of such returns. Any other unreachable return means the
+	// assumptions of the check became contradictory (or the code changed) and is reported as CHECK-BROKEN.
+	DeadReturns map[string]int `json:"expected_unreachable_returns"`
 }
 
 type KnownFinding struct {
@@ -311,7 +315,8 @@ func checkMain(args []string) {
 			continue
 		}
 		if strings.Contains(o.Name, "#cover.return") {
-			if c := coverByFn[o.Fn]; c[1] < c[0] {
+			fnName := o.Name[:strings.Index(o.Name, "#")]
+			if c := coverByFn[o.Fn]; c[1] < c[0] && c[1] <= cfg.DeadReturns[fnName] {
 				deadReturns = append(deadReturns, o.Name+" ("+o.Pos+")")
 				continue
 			}
